@@ -308,3 +308,10 @@ def run_case(case):
         first.setdefault(x['sig'], x)
     return dict(viol=list(first.values()), key=repr(sorted(case.items())), nontrivial=bool(case['mix']),
                 stats=stats)
+
+
+def finalize(cases, results, tier):
+    return dict(tier_bound=('quick: 9 of the 64 (gyro, accel) model-class pairs (every class appears on both sides), all 8 '
+                            'measurement mixes x 3 steps x 2 modes; trajectory and sigma scale assigned by the tuple index'
+                            if tier == 'quick' else
+                            'thorough: all 64 model-class pairs x 8 mixes x 3 steps x 2 modes x 2 sigma scales'))
